@@ -6,7 +6,7 @@ _WR = [(r'const string inputStr = input->str\(\);', 'const int inputStr = env_in
        (r'inputStr == NULL_VALUE', 'inputStr == NAME_NULL', 1),
        (r'for \(const auto& it : m_values\) \{\s*if \(it\.second == inputStr\) \{\s*return numType->writeRawValue\(it\.first,', 'for (size_t it_ = 0; it_ < vmap_size(&self->m_values); it_++) {\n    if (vmap_name_at(&self->m_values, it_) == inputStr) {\n      return numType->writeRawValue(vmap_key_at(&self->m_values, it_),', 1),
        (r'const char\* str = inputStr\.c_str\(\);', 'const char* str = env_input_cstr(input);', 1),
-       (r'm_values\.find\(value\) != m_values\.end\(\)', 'vmap_find(&self->m_values, value) != VMAP_END', 1)]
+       (r'm_values\.find\(((?:[^()]|\([^()]*\))*)\) != m_values\.end\(\)', lambda m: 'vmap_find(&self->m_values, %s) != VMAP_END' % m.group(1), 1)]
 _RD = [(r'const auto it = m_values\.find\(value\);', 'const size_t it = vmap_find(&self->m_values, value);', 1),
        (r'it == m_values\.end\(\)', 'it == VMAP_END', 2),
        (r'it->second', 'NAME_TOKEN(vmap_name_at(&self->m_values, it))', 3)]
